@@ -1064,6 +1064,112 @@ pub fn array_reverse(
     Ok(Guarded::unguarded(this))
 }
 
+/// SortIndexedProperties for sort/toSorted: `undefined` elements go last without being
+/// compared, the rest is merge-sorted (stable) by the comparator or by string order.
+fn sort_values(
+    interp: &mut Interpreter,
+    elements: Vec<JsValue>,
+    comparator: Option<&JsValue>,
+) -> Result<Vec<JsValue>, JsError> {
+    let comparator = match comparator {
+        None | Some(JsValue::Undefined) => None,
+        Some(c) if c.is_callable() => Some(c.clone()),
+        Some(_) => {
+            return Err(JsError::type_error(
+                "The comparison function must be either a function or undefined",
+            ));
+        }
+    };
+
+    let total = elements.len();
+    let mut items: Vec<JsValue> = elements
+        .into_iter()
+        .filter(|v| !v.is_undefined())
+        .collect();
+    let undefined_count = total - items.len();
+
+    // Keep every element alive while user code runs
+    let guard = interp.heap.create_guard();
+    for v in &items {
+        if let JsValue::Object(o) = v {
+            guard.guard(o.cheap_clone());
+        }
+    }
+
+    let keys: Vec<JsString> = if comparator.is_none() {
+        let mut keys = Vec::with_capacity(items.len());
+        for v in &items {
+            // ToString of an object calls its toString/valueOf
+            let prim = interp.coerce_to_primitive(v, "string")?;
+            keys.push(interp.to_js_string(&prim));
+        }
+        keys
+    } else {
+        Vec::new()
+    };
+
+    // Bottom-up merge sort over indices
+    let n = items.len();
+    let mut order: Vec<usize> = (0..n).collect();
+    let mut buffer: Vec<usize> = Vec::with_capacity(n);
+    let mut width = 1;
+    while width < n {
+        buffer.clear();
+        let mut start = 0;
+        while start < n {
+            let mid = (start + width).min(n);
+            let end = (start + 2 * width).min(n);
+            let (mut a, mut b) = (start, mid);
+            while a < mid && b < end {
+                let (ia, ib) = match (order.get(a), order.get(b)) {
+                    (Some(&ia), Some(&ib)) => (ia, ib),
+                    _ => break,
+                };
+                // take the right element only when it is strictly smaller (stability)
+                let right_first = match &comparator {
+                    Some(cmp) => {
+                        let (l, r) = match (items.get(ia), items.get(ib)) {
+                            (Some(l), Some(r)) => (l.clone(), r.clone()),
+                            _ => break,
+                        };
+                        let Guarded {
+                            value: result,
+                            guard: _result_guard,
+                        } = interp.call_function(cmp.clone(), JsValue::Undefined, &[l, r])?;
+                        interp.coerce_to_number(&result)? > 0.0
+                    }
+                    None => match (keys.get(ia), keys.get(ib)) {
+                        (Some(ka), Some(kb)) => ka.as_str() > kb.as_str(),
+                        _ => false,
+                    },
+                };
+                if right_first {
+                    buffer.push(ib);
+                    b += 1;
+                } else {
+                    buffer.push(ia);
+                    a += 1;
+                }
+            }
+            buffer.extend(order.get(a..mid).unwrap_or(&[]));
+            buffer.extend(order.get(b..end).unwrap_or(&[]));
+            start = end;
+        }
+        core::mem::swap(&mut order, &mut buffer);
+        width *= 2;
+    }
+
+    let mut slots: Vec<Option<JsValue>> = items.drain(..).map(Some).collect();
+    let mut sorted: Vec<JsValue> = Vec::with_capacity(total);
+    for idx in order {
+        if let Some(v) = slots.get_mut(idx).and_then(|s| s.take()) {
+            sorted.push(v);
+        }
+    }
+    sorted.extend(core::iter::repeat_n(JsValue::Undefined, undefined_count));
+    Ok(sorted)
+}
+
 pub fn array_sort(
     interp: &mut Interpreter,
     this: JsValue,
@@ -1086,7 +1192,7 @@ pub fn array_sort(
         .array_length()
         .ok_or_else(|| JsError::type_error("Not an array"))?;
 
-    let mut elements: Vec<JsValue> = {
+    let elements: Vec<JsValue> = {
         let arr_ref = arr.borrow();
         (0..length)
             .map(|i| {
@@ -1097,38 +1203,7 @@ pub fn array_sort(
             .collect()
     };
 
-    if let Some(cmp) = compare_fn {
-        if cmp.is_callable() {
-            for i in 0..elements.len() {
-                let limit = elements.len().saturating_sub(1 + i);
-                for j in 0..limit {
-                    // j and j+1 are guaranteed in bounds due to limit calculation
-                    let (left, right) = match (elements.get(j), elements.get(j + 1)) {
-                        (Some(l), Some(r)) => (l.clone(), r.clone()),
-                        _ => continue,
-                    };
-                    let Guarded {
-                        value: result,
-                        guard: _result_guard,
-                    } = interp.call_function(cmp.clone(), JsValue::Undefined, &[left, right])?;
-                    if result.to_number() > 0.0 {
-                        elements.swap(j, j + 1);
-                    }
-                }
-            }
-        }
-    } else {
-        // Pre-compute string representations for sorting
-        let mut pairs: Vec<(JsString, JsValue)> = elements
-            .into_iter()
-            .map(|v| {
-                let s = interp.to_js_string(&v);
-                (s, v)
-            })
-            .collect();
-        pairs.sort_by(|(a_str, _), (b_str, _)| a_str.as_str().cmp(b_str.as_str()));
-        elements = pairs.into_iter().map(|(_, v)| v).collect();
-    }
+    let elements = sort_values(interp, elements, compare_fn.as_ref())?;
 
     {
         let mut arr_ref = arr.borrow_mut();
@@ -1930,7 +2005,7 @@ pub fn array_to_sorted(
         .array_length()
         .ok_or_else(|| JsError::type_error("Not an array"))?;
 
-    let mut elements: Vec<JsValue> = (0..length)
+    let elements: Vec<JsValue> = (0..length)
         .map(|i| {
             arr.borrow()
                 .get_property(&PropertyKey::Index(i))
@@ -1938,45 +2013,7 @@ pub fn array_to_sorted(
         })
         .collect();
 
-    if let Some(ref cmp_fn) = comparator {
-        if cmp_fn.is_callable() {
-            let cmp_fn = cmp_fn.clone();
-            let mut i = 0;
-            while i < elements.len() {
-                let mut j = i;
-                while j > 0 {
-                    // j > 0 guarantees j-1 is valid, and j < elements.len() from outer loop
-                    let (left, right) = match (elements.get(j - 1), elements.get(j)) {
-                        (Some(l), Some(r)) => (l.clone(), r.clone()),
-                        _ => break,
-                    };
-                    let Guarded {
-                        value: cmp_result,
-                        guard: _cmp_guard,
-                    } = interp.call_function(cmp_fn.clone(), JsValue::Undefined, &[left, right])?;
-                    let cmp = cmp_result.to_number();
-                    if cmp > 0.0 {
-                        elements.swap(j - 1, j);
-                        j -= 1;
-                    } else {
-                        break;
-                    }
-                }
-                i += 1;
-            }
-        }
-    } else {
-        // Pre-compute string representations for sorting
-        let mut pairs: Vec<(JsString, JsValue)> = elements
-            .into_iter()
-            .map(|v| {
-                let s = interp.to_js_string(&v);
-                (s, v)
-            })
-            .collect();
-        pairs.sort_by(|(a_str, _), (b_str, _)| a_str.as_str().cmp(b_str.as_str()));
-        elements = pairs.into_iter().map(|(_, v)| v).collect();
-    }
+    let elements = sort_values(interp, elements, comparator.as_ref())?;
 
     let guard = interp.heap.create_guard();
     let arr = interp.create_array_from(&guard, elements);
